@@ -150,7 +150,9 @@ def patterns() -> dict[str, "re.Pattern[str]"]:
     hre = importlib.import_module("markdown_it.common.html_re")
     hb = importlib.import_module("markdown_it.rules_block.html_block")
     cu = importlib.import_module("markdown_it.common.utils")
+    tbl = importlib.import_module("markdown_it.rules_block.table")
     out = {
+        "tableHeaderRe": tbl.headerLineRe,
         "digitalRe": ent.DIGITAL_RE, "namedRe": ent.NAMED_RE,
         "emailRe": auto.EMAIL_RE, "autolinkRe": auto.AUTOLINK_RE,
         "htmlTagRe": hre.HTML_TAG_RE, "htmlOpenCloseTagRe": hre.HTML_OPEN_CLOSE_TAG_RE,
